@@ -22,6 +22,7 @@ fn value(v: &Value) -> (RV, ColumnType) {
 
 pub fn handle(op: &str, req: &Value) -> Option<Value> {
     Some(match op {
+        "row_lock_step" => row_lock_step(req),
         // one row with value `row`; condition on `cond`; the same statement with and without an index
         "relational_index_vs_scan" => {
             let (rowv, ty) = value(&req["row"]);
@@ -87,4 +88,17 @@ pub fn handle(op: &str, req: &Value) -> Option<Value> {
         },
         _ => return None,
     })
+}
+
+/// C09: one RowLockManager operation through the `verif_rowlock` hook; the checker supplies `expired` per entry.
+pub fn row_lock_step(req: &Value) -> Value {
+    use relational_engine::transaction::verif_rowlock;
+    let tname = |v: &Value| format!("t{v}");
+    let locks: Vec<verif_rowlock::Entry> = req["table"]["locks"].as_array().into_iter().flatten()
+        .map(|l| (tname(&l["table"]), l["row"].as_u64().unwrap_or(0), l["tx"].as_u64().unwrap_or(0), l["expired"].as_bool().unwrap_or(false))).collect();
+    let idx: Vec<(u64, Vec<(String, u64)>)> = req["table"]["tx_locks"].as_array().into_iter().flatten()
+        .map(|t| (t["tx"].as_u64().unwrap_or(0), t["rows"].as_array().into_iter().flatten().map(|r| (tname(&r[0]), r[1].as_u64().unwrap_or(0))).collect())).collect();
+    let rows: Vec<(String, u64)> = req["rows"].as_array().into_iter().flatten().map(|r| (tname(&r[0]), r[1].as_u64().unwrap_or(0))).collect();
+    let (result, after, index) = verif_rowlock::step(&locks, &idx, req["rowlock_op"].as_str().unwrap_or(""), req["tx"].as_u64().unwrap_or(0), &rows);
+    json!({"result": result, "after": after, "index": index, "before": locks.iter().map(|l| (l.0.clone(), l.1, l.2, l.3)).collect::<Vec<_>>(), "rows": rows})
 }
